@@ -194,7 +194,7 @@ class Gen:
                 prefix = self.ch(["b", "B", "b", "br", "Br", "rb", "RB", "bR"])
             else:
                 body = self.ch(self.STR_BODIES)
-                prefix = self.ch(["", "", "", "", "r", "R", "u", "U"])
+                prefix = self.ch(["", "", "", "", "r", "R", "u"])      # `U` is a known finding (kind)
             if self.infs:
                 if "\\" in body or "\n" in body or "#" in body:
                     continue
@@ -209,7 +209,7 @@ class Gen:
             if q is None:
                 continue
             if len(q) == 3 and self.p(0.4) and not raw and not self.infs:
-                body = body + self.ch(["\n", "\nline2\n", "\n  é\n"]) if not body.endswith("\\") else body
+                body = (body + self.ch(["\n", "\nline2\n", "\n  é\n"] if kind != "b" else ["\n", "\nline2\n"])) if not body.endswith("\\") else body
                 if body.endswith(q[0]):
                     continue
             if self.nl != "\n" and "\n" in body:
@@ -297,8 +297,7 @@ class Gen:
             return s
         if k < 0.8:
             with self.inbr():
-                return self.ch(["[", "("]) + self.expr(d, 1) + "," + self.expr(d, 1) + self.ch(["]", ")"])[0:1].replace("[", "]") if False else \
-                    "[" + self.expr(d, 1) + ", " + self.expr(d, 1) + "]"
+                return "[" + self.expr(d, 1) + ", " + self.expr(d, 1) + "]"
         if k < 0.9:
             return self.expr(d, 10)
         return self.name() + "(" + self.expr(d, 1) + ")"
@@ -652,3 +651,541 @@ class Gen:
         if n > 1 and self.p(0.15) or (n == 1 and self.p(0.08)):
             s += ","
         return s
+
+    # ------------------------------------------------------------- patterns
+    def pattern(self, d, top=False):
+        if top and self.p(0.15):
+            n = self.ch([1, 2, 3])
+            items = [self.maybe_star_pattern(d - 1) for _ in range(n)]
+            self._one_star(items)
+            s = ", ".join(items)
+            if n == 1 or self.p(0.3):
+                s += ","
+            return s
+        return self.as_pattern(d)
+
+    def _one_star(self, items):
+        seen = False
+        for k, it in enumerate(items):
+            if it.startswith("*"):
+                if seen:
+                    items[k] = self.ch(PLAIN)
+                seen = True
+
+    def maybe_star_pattern(self, d):
+        if self.p(0.15):
+            return "*" + self.ch(["_", self.ch(PLAIN), "rest"])
+        return self.as_pattern(d)
+
+    def as_pattern(self, d):
+        s = self.or_pattern(d)
+        if self.p(0.15):
+            s += " as " + self.ch(PLAIN + ["match", "case", "type"])
+        return s
+
+    def or_pattern(self, d):
+        n = self.ch([1, 1, 1, 1, 2, 3])
+        return self.ch([" | ", "|"]).join(self.closed_pattern(d) for _ in range(n))
+
+    def lit_pattern(self):
+        r = self.r.random()
+        if r < 0.3:
+            return self.ch(["", "-", "- "]) + self.ch([self.integer(), self.floatlit()])
+        if r < 0.4:
+            return self.ch(["", "-"]) + self.ch([self.integer(), self.floatlit()]) + self.ch([" + ", "-", " - ", "+"]) + self.imag()
+        if r < 0.45:
+            return self.ch(["", "-"]) + self.imag()
+        if r < 0.75:
+            n = self.ch([1, 1, 2])
+            kind = self.ch("ssb")
+            return " ".join(self.strpiece(kind) for _ in range(n))
+        return self.ch(["None", "True", "False"])
+
+    def dotted_value(self):
+        return ".".join([self.name()] + [self.name() for _ in range(self.ch([1, 1, 2]))])
+
+    def closed_pattern(self, d):
+        r = self.r.random()
+        if d <= 0 or r < 0.3:
+            k = self.r.random()
+            if k < 0.4:
+                return self.lit_pattern()
+            if k < 0.7:
+                return self.ch(PLAIN + ["match", "case", "type"])
+            if k < 0.85:
+                return "_"
+            return self.dotted_value()
+        with self.inbr():
+            if r < 0.4:
+                return "(" + self.as_pattern(d - 1) + ")"
+            if r < 0.55:
+                n = self.count(0, 4)
+                items = [self.maybe_star_pattern(d - 1) for _ in range(n)]
+                self._one_star(items)
+                s = ", ".join(items)
+                if self.p(0.5):
+                    if n and self.p(0.3):
+                        s += ","
+                    return "[" + s + "]"
+                if n == 1 or (n and self.p(0.3)):
+                    s += ","
+                return "(" + s + ")"
+            if r < 0.7:
+                n = self.count(0, 3)
+                items = []
+                for _ in range(n):
+                    key = self.ch([self.lit_pattern(), self.dotted_value()])
+                    items.append(key + ": " + self.as_pattern(d - 1))
+                if self.p(0.3):
+                    items.append("**" + self.ch(PLAIN + ["rest"]))
+                s = ", ".join(items)
+                if items and self.p(0.2):
+                    s += ","
+                return "{" + s + "}"
+            if r < 0.9:
+                cls = self.ch([self.name(), self.dotted_value()])
+                items = [self.as_pattern(d - 1) for _ in range(self.count(0, 3))]
+                kws = [x for x in dict.fromkeys(PLAIN)]
+                self.r.shuffle(kws)
+                for _ in range(self.ch([0, 0, 1, 2])):
+                    items.append(kws.pop() + "=" + self.as_pattern(d - 1))
+                s = ", ".join(items)
+                if items and self.p(0.2):
+                    s += ","
+                return cls + "(" + s + ")"
+            return self.lit_pattern()
+
+    # ------------------------------------------------------------- statements
+    def type_params(self, d):
+        """(text, patch list) of a PEP 695 type parameter list"""
+        pool = ["T", "U", "K", "V", "Ts", "P", "T1", "match", "case", "type", "é"]
+        self.r.shuffle(pool)
+        n = self.ch([1, 1, 2, 3])
+        items, pat = [], []
+        for _ in range(n):
+            nm = pool.pop()
+            r = self.r.random()
+            if r < 0.6:
+                if self.p(0.4):
+                    was = self.layout
+                    self.layout = False
+                    with self.inbr():
+                        b = self.ch([self.expr(d, 1), "(" + self.exprlist(d) + ",)", self.name()])
+                    self.layout = was
+                    items.append(nm + ": " + b)
+                    pat.append(["TypeVar", nm, b])
+                else:
+                    items.append(nm)
+                    pat.append(["TypeVar", nm, None])
+            elif r < 0.8:
+                items.append("*" + nm)
+                pat.append(["TypeVarTuple", nm])
+            else:
+                items.append("**" + nm)
+                pat.append(["ParamSpec", nm])
+        s = ", ".join(items)
+        if self.p(0.2):
+            s += ","
+        return "[" + s + "]", pat
+
+    def simple_stmt(self, d):
+        """(text, twin_text) of one simple statement"""
+        r = self.r.random()
+        S = self.S
+        if r < 0.14:
+            s = self.exprlist(d, star=True)
+            return s
+        if r < 0.30:
+            n = self.ch([1, 1, 1, 2, 3])
+            tg = [self.target_list(d) for _ in range(n)]
+            rhs = self.ch([self.exprlist(d, star=True), self.exprlist(d, star=True), "yield " + self.expr(d, 1), "yield"])
+            return (self.O() + "=" + self.O()).join(tg + [rhs])
+        if r < 0.36:
+            t = self.target(d, paren_ok=False)
+            return t + self.O() + self.ch(AUGOPS) + self.O() + self.ch([self.exprlist(d), "yield " + self.expr(d, 1)])
+        if r < 0.43:
+            t = self.target(d, paren_ok=False)
+            s = t + self.O() + ":" + self.O() + self.expr(d, 1)
+            if self.p(0.6):
+                s += " = " + self.ch([self.exprlist(d, star=True), "yield " + self.expr(d, 1)])
+            return s
+        if r < 0.48:
+            return "return" + (S() + self.exprlist(d, star=True) if self.p(0.7) else "")
+        if r < 0.53:
+            n = self.ch([1, 1, 2, 3])
+            items = [self.target(d, star_ok=False) for _ in range(n)]
+            s = (self.O() + "," + self.O()).join(items)
+            if self.p(0.15):
+                s += ","
+            return "del" + S() + s
+        if r < 0.58:
+            return self.ch(["pass", "break", "continue"])
+        if r < 0.63:
+            k = self.ch([0, 1, 1, 2])
+            if k == 0:
+                return "raise"
+            s = "raise" + S() + self.expr(d, 1)
+            if k == 2:
+                s += S() + "from" + S() + self.expr(d, 1)
+            return s
+        if r < 0.67:
+            kw = self.ch(["global", "nonlocal"])
+            return kw + S() + (self.O() + "," + self.O()).join(self.name() for _ in range(self.ch([1, 1, 2, 3])))
+        if r < 0.71:
+            s = "assert" + S() + self.expr(d, 1)
+            if self.p(0.4):
+                s += self.O() + "," + self.O() + self.expr(d, 1)
+            return s
+        if r < 0.78:
+            items = []
+            for _ in range(self.ch([1, 1, 2, 3])):
+                nm = ".".join(self.name() for _ in range(self.ch([1, 1, 2, 3])))
+                if self.p(0.3):
+                    nm += S() + "as" + S() + self.name()
+                items.append(nm)
+            return "import" + S() + (self.O() + "," + self.O()).join(items)
+        if r < 0.88:
+            dots = self.ch(["", "", "", ".", "..", "...", "....", ". .", ".. .", "... ...", "....."])
+            mod = ".".join(self.name() for _ in range(self.ch([1, 1, 2, 3]))) if (self.p(0.75) or not dots) else ""
+            loc = dots + (self.ch(["", " "]) if dots else "") + mod
+            if self.p(0.15):
+                names = "*"
+            else:
+                items = []
+                for _ in range(self.ch([1, 1, 2, 3])):
+                    nm = self.name()
+                    if self.p(0.3):
+                        nm += S() + "as" + S() + self.name()
+                    items.append(nm)
+                names = (self.O() + "," + self.O()).join(items)
+                if self.p(0.3):
+                    with self.inbr():
+                        names = "(" + self.O() + names + (self.O() + "," if self.p(0.4) else "") + self.O() + ")"
+            return "from" + S() + loc + S() + "import" + S() + names
+        if r < 0.93 and self.pep695:
+            return None         # type alias, generated by the caller at line start only
+        return self.exprlist(d)
+
+    def type_alias(self, d):
+        nm = self.ch(["X", "Alias", "T", "match", "case", "type", "é"])
+        params, pat = ("", [])
+        if self.p(0.5):
+            params, pat = self.type_params(d)
+        was = self.layout
+        self.layout = False
+        with self.inbr():
+            v = self.expr(d, 1)
+        self.layout = was
+        marker = self.uid("_PVTA_")
+        self.patches.append({"kind": "alias", "marker": marker, "name": nm, "params": pat})
+        text = "type " + nm + params + " = " + v
+        twin = marker + " = " + v
+        return text, twin
+
+    def simple_line(self, d):
+        """one logical line of simple statements: (text, twin)"""
+        n = self.ch([1, 1, 1, 1, 2, 3])
+        parts_t, parts_w = [], []
+        for k in range(n):
+            s = self.simple_stmt(d)
+            if s is None:
+                if k == 0:
+                    t, w = self.type_alias(d)
+                else:
+                    t = w = "pass"
+            else:
+                t = w = s
+            parts_t.append(t)
+            parts_w.append(w)
+        sep = self.ch(["; ", ";", " ; "])
+        tail = self.ch(["", "", "", ";", " ;"])
+        text, twin = sep.join(parts_t) + tail, sep.join(parts_w) + tail
+        if softkw_colon_shape(text):
+            # known-finding shape (soft keyword heuristic): keep it out of the random streams
+            return "pass", "pass"
+        if self.layout and self.p(0.1):
+            c = self.ch(["  # comment", " #", "# é 😀", " # type: whatever"])
+            text, twin = text + c, twin + c
+        return text, twin
+
+    def block(self, d):
+        """list of (text, twin) lines of a suite body (unindented)"""
+        out = []
+        for _ in range(self.ch([1, 1, 2, 3])):
+            out.extend(self.statement(d))
+        return out
+
+    def suite(self, d, header_t, header_w=None):
+        """header + body: either one-line form or indented block"""
+        header_w = header_t if header_w is None else header_w
+        if self.p(0.15) or d <= 0:
+            t, w = self.simple_line(max(d, 0))
+            if not t.startswith("type "):
+                return [(header_t + self.ch([" ", "", "  "]) + t, header_w + " " + w)]
+        body = self.block(d - 1)
+        ind = self.indent
+        lines = [(header_t, header_w)]
+        if self.layout and self.p(0.1):
+            lines.append(("", ""))
+        if self.layout and self.p(0.1):
+            lines.append((self.ch(["# c", "   # odd indent comment", "#"]),) * 2)
+        for t, w in body:
+            lines.append((self._ind(ind, t), self._ind(ind, w)))
+        return lines
+
+    def _ind(self, ind, t):
+        if t == "" or t.lstrip().startswith("#") and False:
+            return t
+        return ind + t
+
+    def statement(self, d):
+        """list of (text, twin) lines"""
+        r = self.r.random()
+        S = self.S
+        if d <= 0 or r < 0.45:
+            return [self.simple_line(max(d, 1))]
+        if r < 0.53:
+            lines = self.suite(d, "if" + S() + self.expr(d, 0 if self.p(0.1) else 1) + self.O() + ":")
+            for _ in range(self.ch([0, 0, 1, 2, 3])):
+                lines += self.suite(d, "elif" + S() + self.expr(d, 1) + self.O() + ":")
+            if self.p(0.5):
+                lines += self.suite(d, "else" + self.O() + ":")
+            return lines
+        if r < 0.58:
+            lines = self.suite(d, "while" + S() + self.expr(d, 0 if self.p(0.1) else 1) + self.O() + ":")
+            if self.p(0.3):
+                lines += self.suite(d, "else:")
+            return lines
+        if r < 0.65:
+            pre = "async" + S() if self.p(0.2) else ""
+            lines = self.suite(d, pre + "for" + S() + self.target_list(d) + S() + "in" + S() + self.exprlist(d, star=True) + self.O() + ":")
+            if self.p(0.3):
+                lines += self.suite(d, "else:")
+            return lines
+        if r < 0.72:
+            lines = self.suite(d, "try" + self.O() + ":")
+            star = self.p(0.25)
+            nh = self.ch([0, 1, 1, 2, 3])
+            for k in range(nh):
+                h = "except" + ("*" if star and self.p(0.5) else (" *" if star else ""))
+                if star or k < nh - 1 or self.p(0.7):
+                    h += S() + self.expr(d, 1)
+                    if self.p(0.5):
+                        h += S() + "as" + S() + self.name()
+                lines += self.suite(d, h + self.O() + ":")
+            if nh and self.p(0.3):
+                lines += self.suite(d, "else:")
+            if nh == 0 or self.p(0.3):
+                lines += self.suite(d, "finally" + self.O() + ":")
+            return lines
+        if r < 0.79:
+            pre = "async" + S() if self.p(0.2) else ""
+            n = self.ch([1, 1, 2, 3])
+            items = []
+            for _ in range(n):
+                it = self.expr(d, 1)
+                if self.p(0.5):
+                    it += S() + "as" + S() + self.target(d, star_ok=False)
+                items.append(it)
+            s = (self.O() + "," + self.O()).join(items)
+            if self.p(0.25):
+                with self.inbr():
+                    s = "(" + self.O() + s + (self.O() + "," if self.p(0.4) else "") + self.O() + ")"
+            return self.suite(d, pre + "with" + S() + s + self.O() + ":")
+        if r < 0.88:
+            lines = []
+            for _ in range(self.ch([0, 0, 0, 1, 2])):
+                dec = "@" + self.ch(["", " "]) + self.expr(d, 0 if self.p(0.05) else 1)
+                if softkw_colon_shape(dec[1:].lstrip()):
+                    dec = "@dec"
+                lines.append((dec, dec))
+            pre = "async" + S() if self.p(0.2) else ""
+            nm = self.uid("fn") if self.p(0.7) else self.name()
+            tp_t, pat = "", None
+            if self.pep695 and self.p(0.2):
+                nm = self.uid("G")
+                tp_t, pat = self.type_params(d)
+                self.patches.append({"kind": "params", "defname": nm, "params": pat})
+            with self.inbr():
+                ps = self.params(d - 1)
+            ret = (self.O() + "->" + self.O() + self.expr(d, 1)) if self.p(0.3) else ""
+            head = pre + "def" + S() + nm
+            tail = "(" + ps + ")" + ret + self.O() + ":"
+            return lines + self.suite(d, head + tp_t + tail, head + tail)
+        if r < 0.94:
+            lines = []
+            for _ in range(self.ch([0, 0, 0, 1])):
+                dec = "@" + self.expr(d, 1)
+                if softkw_colon_shape(dec[1:].lstrip()):
+                    dec = "@dec"
+                lines.append((dec, dec))
+            nm = self.uid("Cls") if self.p(0.7) else self.name()
+            tp_t = ""
+            if self.pep695 and self.p(0.2):
+                nm = self.uid("G")
+                tp_t, pat = self.type_params(d)
+                self.patches.append({"kind": "params", "defname": nm, "params": pat})
+            args = ""
+            if self.p(0.6):
+                with self.inbr():
+                    args = "(" + self.arglist(d - 1, allow_genexp=False) + ")"
+            head = "class" + S() + nm
+            return lines + self.suite(d, head + tp_t + args + self.O() + ":", head + args + ":")
+        # match
+        n = self.ch([1, 1, 1, 2, 3])
+        if n == 1:
+            subj = self.expr(d, 0 if self.p(0.1) else 1)
+        else:
+            items = [("*" + self.expr(d, 6)) if self.p(0.15) else self.expr(d, 1) for _ in range(n)]
+            subj = ", ".join(items) + ("," if self.p(0.3) else "")
+        lines = [("match" + S() + subj + self.O() + ":",) * 2]
+        ind = self.indent
+        for _ in range(self.ch([1, 1, 2, 3])):
+            was = self.layout
+            self.layout = False
+            pat = self.pattern(d, top=True)
+            self.layout = was
+            h = "case" + S() + pat
+            if self.p(0.25):
+                h += S() + "if" + S() + self.expr(d, 0 if self.p(0.2) else 1)
+            for t, w in self.suite(d, h + self.O() + ":"):
+                lines.append((ind + t, ind + w))
+        return lines
+
+    # ------------------------------------------------------------- programs
+    def _setup(self):
+        self.patches = []
+        self.counter = 0
+        self.br = 0
+        self.indent = self.ch(["    ", "    ", "    ", " ", "  ", "\t", "        ", "   "])
+        self.nl = self.ch(["\n"] * 8 + ["\r\n", "\r"]) if self.layout else "\n"
+
+    def program(self, mode="m"):
+        self._setup()
+        lines = []
+        lo, hi = self.nstmts
+        for _ in range(self.r.randint(lo, hi)):
+            if self.layout and self.p(0.08):
+                lines.append((self.ch(["", "# comment", "   ", "#!shebang-like", "\t", "    # indented comment"]),) * 2)
+            lines.extend(self.statement(self.depth))
+        text = self.nl.join(t for t, _ in lines)
+        twin = self.nl.join(w for _, w in lines)
+        text = text.replace("\n", self.nl) if self.nl != "\n" else text
+        twin = twin.replace("\n", self.nl) if self.nl != "\n" else twin
+        if self.nl != "\n":
+            # a CR LF produced from an LF that was already preceded by CR
+            text = text.replace("\r\r\n", "\r\n")
+            twin = twin.replace("\r\r\n", "\r\n")
+        end = self.ch([self.nl, self.nl, self.nl, "", self.nl + self.nl, self.nl + "  " + self.nl]) if self.layout else "\n"
+        # a compound statement at the end needs a newline in this parser's and CPython's grammar alike
+        text += end
+        twin += end
+        if self.layout and self.p(0.04):
+            text, twin = "﻿" + text, "﻿" + twin
+        return Program(text, twin, list(self.patches), mode)
+
+    def expression_program(self):
+        self._setup()
+        self.nl = "\n"
+        k = self.r.random()
+        if k < 0.7:
+            s = self.expr(self.depth, 1)
+        else:
+            s = self.exprlist(self.depth, star=True)
+        if self.layout:
+            s = s + self.ch(["", "", " ", "\n", "\n\n", "  # c", " \n"])
+        return Program(s, s, [], "e")
+
+
+# ---------------------------------------------------------------------------------------------------------
+# known-finding shape predicates (shared by the generator, which avoids them, and by classify())
+
+def _tokens(line):
+    import io
+    import tokenize
+    out = []
+    try:
+        for t in tokenize.generate_tokens(io.StringIO(line).readline):
+            out.append(t)
+    except (tokenize.TokenError, IndentationError, SyntaxError):
+        pass
+    return out
+
+
+def softkw_colon_shape(line):
+    """True when the logical line starts with the NAME `match`/`case` used as an ordinary identifier and the
+    transformer's heuristic would still take it for the keyword: a top-level colon that is not the token right
+    after it and is not consumed by a top-level `lambda`.  (Callers pass lines that are NOT match/case
+    statements.)"""
+    import tokenize
+    toks = [t for t in _tokens(line) if t.type not in (tokenize.NL, tokenize.COMMENT, tokenize.INDENT, tokenize.DEDENT)]
+    if not toks or toks[0].type != tokenize.NAME or toks[0].string not in ("match", "case"):
+        return False
+    nesting = 0
+    first = True
+    seen_lambda = False
+    for t in toks[1:]:
+        if t.type in (tokenize.NEWLINE, tokenize.ENDMARKER):
+            break
+        s = t.string
+        if t.type == tokenize.OP:
+            if s in "([{":
+                nesting += 1
+            elif s in ")]}":
+                nesting -= 1
+            elif s == ":" and nesting == 0:
+                if seen_lambda:
+                    seen_lambda = False
+                elif not first:
+                    return True
+        elif t.type == tokenize.NAME and s == "lambda" and nesting == 0:
+            seen_lambda = True
+        first = False
+    return False
+
+
+def apply_patches(ref_text, patches, ref_expr):
+    """CPython's canonical tree of the twin -> ground-truth tree of the PEP 695 text.
+    ref_expr(text) must give the canonical tree text of an expression (CPython, Load context)."""
+    import pyref
+    if not patches:
+        return ref_text
+    tree = pyref.sexp(ref_text)
+    hexn = lambda s: "s:" + (s.encode().hex() or "-")
+
+    def tparams(ps):
+        out = []
+        for p in ps:
+            if p[0] == "TypeVar":
+                b = "None" if p[2] is None else pyref.sexp(ref_expr(p[2]))
+                out.append(("TypeParamTypeVar", None, [("name", hexn(p[1])), ("bound", b)]))
+            elif p[0] == "TypeVarTuple":
+                out.append(("TypeParamTypeVarTuple", None, [("name", hexn(p[1]))]))
+            else:
+                out.append(("TypeParamParamSpec", None, [("name", hexn(p[1]))]))
+        return out
+    aliases = {hexn(p["marker"]): p for p in patches if p["kind"] == "alias"}
+    defs = {hexn(p["defname"]): p for p in patches if p["kind"] == "params"}
+
+    def walk(t):
+        if isinstance(t, str):
+            return t
+        if isinstance(t, list):
+            return [walk(x) for x in t]
+        kind, rng, fields = t
+        fields = [(f, walk(v)) for f, v in fields]
+        if kind == "StmtAssign":
+            fd = dict(fields)
+            tg = fd["targets"]
+            if len(tg) == 1 and not isinstance(tg[0], (str, list)) and tg[0][0] == "ExprName":
+                nm = dict(tg[0][2])["id"]
+                if nm in aliases:
+                    p = aliases[nm]
+                    name = ("ExprName", None, [("id", hexn(p["name"])), ("ctx", "Store")])
+                    return ("StmtTypeAlias", None, [("name", name), ("type_params", tparams(p["params"])), ("value", fd["value"])])
+        if kind in ("StmtFunctionDef", "StmtAsyncFunctionDef", "StmtClassDef"):
+            fd = dict(fields)
+            if fd["name"] in defs:
+                fields = [(f, (tparams(defs[fd["name"]]["params"]) if f == "type_params" else v)) for f, v in fields]
+        return (kind, rng, fields)
+    return pyref.unsexp(walk(tree))
